@@ -449,14 +449,18 @@ def make_item(p, a, r, gen_children=None):
             kk = r.choice(["wms_title", "WMS_SRS", "ows_enable_request", "Key One", "qstring", "default_x", "k-1", "a.b", "MiXeD",
                            # keys named like keywords that open blocks, keys that differ under case folding only, the word include
                            "projection", "metadata", "connectionoptions", "PATTERN", "points", "config", "validation", "values", "layer", "end",
-                           "Straße", "STRASSE", "µm", "wms_include_items", "x"])
+                           "Straße", "STRASSE", "µm", "wms_include_items", "x",
+                           # characters that mean something to a formatting template
+                           "tile_{z}", "{value}", "{}", "{0}", "open{", "100%", "%s", "%(key)s", "$key", "a\\tb"])
             vv = rand_string(r, False)
             pairs.append((kv_tok(kk), kv_tok(vv)))
         if r.random() < 0.15:
             pairs.append((kv_tok(pairs[0][0].text.upper()), kv_tok("dup-" + rand_string(r, False, multiline_ok=False))))
         return Item("kv", key, shape="kv", pairs=pairs)
     if k == "config":
-        kk = r.choice(["MS_ERRORFILE", "PROJ_LIB", "ON_MISSING_DATA", "ms_nonsquare", "CGI_CONTEXT_URL", "my_setting"])
+        kk = r.choice(["MS_ERRORFILE", "PROJ_LIB", "ON_MISSING_DATA", "ms_nonsquare", "CGI_CONTEXT_URL", "my_setting",
+                       # names whose lower-cased form is not their case-folded form
+                       "Straße_DIR", "µ_UNITS", "MAſS", "ΟΔΟΣ", "TILE_{Z}", "{}", "%S"])
         vv = {"ON_MISSING_DATA": r.choice(["IGNORE", "FAIL", "log"]), "ms_nonsquare": r.choice(["YES", "no"])}.get(kk)
         if vv is None or r.random() < 0.3:
             vv = rand_string(r, False, multiline_ok=False)  # (CONFIG values are free text for the validator: the schema lists them in upper case)
